@@ -16,8 +16,9 @@
      5. Connectivity ([marks_connected], [kept_files_connected]): the file of every marked
         definition, and every file with constants / typedefs / enums, is reached from the
         main file over marked includes, hence survives traversal ([path_in_output]).
-     6. The theorems; the method filter ([method_filter_only_matching]); what does not hold
-        with a method filter (witness Idl/TrimWitness.v). *)
+     6. The theorems; the method filter ([method_filter_only_matching], [method_filter_complete]);
+        what does not hold with a method filter (witness Idl/TrimWitness.v); no reference of
+        the output dangles ([references_survive], [base_service_survives]). *)
 From Coq Require Import List Bool Arith NArith ZArith Lia.
 From Coq.Strings Require Import Byte.
 From Verif Require Import Base.Bytes Idl.Ast Idl.AstUtil Idl.AstFacts Idl.Trim Idl.TrimSpec Idl.TrimWitness.
@@ -4129,3 +4130,777 @@ Proof.
     + vm_compute in Hg. injection Hg as <-. vm_compute in Hk. discriminate.
     + vm_compute in Hf0. injection Hf0 as <-. destruct Hinc.
 Qed.
+
+
+(* ==================================================================== the method filter, "if" half: traceExtendMethod tries every function under every name on the way *)
+
+(* ---------------------------------------------------------------- the method filter, "if" half *)
+
+(* a loop visits every element; what it establishes for one element stays *)
+Lemma fold_res_all {A S} (f : A -> S -> res S) (R : S -> S -> Prop) (P : A -> S -> Prop) l :
+  (forall s, R s s) -> (forall a b d, R a b -> R b d -> R a d) ->
+  (forall x s s', In x l -> f x s = Ok s' -> R s s' /\ P x s') ->
+  (forall x s s', R s s' -> P x s -> P x s') ->
+  forall s s', fold_res f l s = Ok s' -> R s s' /\ forall x, In x l -> P x s'.
+Proof.
+  intros Hr Ht. induction l as [|y l IH]; intros Hstep Hmono s s' H; cbn [fold_res] in H.
+  - injection H as <-. split; [apply Hr | intros x []].
+  - apply bind_ok in H. destruct H as [s1 [H1 H2]].
+    destruct (Hstep y s s1 (or_introl eq_refl) H1) as [R1 P1].
+    destruct (IH (fun x a b Hin => Hstep x a b (or_intror Hin)) Hmono _ _ H2) as [R2 P2].
+    split; [eapply Ht; eauto|]. intros x [<-|Hin]; [eapply Hmono; eauto | auto].
+Qed.
+
+Section FilterIf.
+  Variable matches : bytes -> bytes -> bool.
+  Variable cp : bytes -> bool.
+  Variable c : cfg.
+  Variable p : program.
+  Hypothesis Hfilter : filtering c = true.
+
+  Definition fn_at (T : bytes * nat) (j : nat) (ts : service) (g : function) : Prop :=
+    service_at p (fst T) (snd T) ts /\ nth_error (sv_functions ts) j = Some g.
+
+  Definition both_marked (st : mstate) (T : bytes * nat) (j : nat) : Prop :=
+    marked st (NService (fst T) (snd T)) = true /\ marked st (NFunction (fst T) (snd T) j) = true.
+
+  Lemma both_marked_le a b T j : le a b -> both_marked a T j -> both_marked b T j.
+  Proof. intros L [H1 H2]. split; eapply le_marked; eauto. Qed.
+
+  (* every function of every service reached from X through `extends` that matches under
+     one of the names in [fa] is marked *)
+  Definition trace_complete (st : mstate) (fa : list bytes) (X : bytes * nat) : Prop :=
+    forall T j ts g father pat, derives p X T -> fn_at T j ts g -> In father fa -> In pat (patterns c p) ->
+      matches pat (qualified father (fn_name g)) = true -> both_marked st T j.
+
+  Lemma trace_complete_le a b fa X : le a b -> trace_complete a fa X -> trace_complete b fa X.
+  Proof. intros L H T j ts g father pat Hd Hf Hi Hp Hm. eapply both_marked_le; eauto. Qed.
+
+  Lemma service_at_fun F si s s' : service_at p F si s -> service_at p F si s' -> s = s'.
+  Proof. intros [f [H1 H2]] [f' [H1' H2']]. congruence. Qed.
+
+  Lemma derives_inv F si s T : derives p (F, si) T -> service_at p F si s ->
+    T = (F, si) \/ exists b1 b2 via, base_of p F s = Some (NService b1 b2, via) /\ derives p (b1, b2) T.
+  Proof.
+    intros H Hs. inversion H as [x|G gi gs G' gi' via y Hs' Hb Hd]; subst; [left; reflexivity|].
+    right. rewrite (service_at_fun _ _ _ _ Hs Hs'). eauto.
+  Qed.
+
+  Lemma mark_function_marks fuel F si j fn st st' :
+    mark_function p fuel F si j fn st = Ok st' -> le st st' /\ marked st' (NFunction F si j) = true.
+  Proof.
+    intros H. pose proof (mark_function_le _ _ _ _ _ _ _ _ H) as L. split; [exact L|].
+    unfold mark_function in H. apply bind_ok in H. destruct H as [x1 [X1 X2]].
+    apply bind_ok in X2. destruct X2 as [x2 [X2 X3]].
+    apply mark_types_le in X1. apply mark_types_le in X2.
+    assert (le x2 st') as X4.
+    { destruct (fn_void fn); [injection X3 as <-; apply le_refl | eapply mark_types_le; eauto]. }
+    eapply le_marked; [exact X4|]. eapply le_marked; [exact X2|]. eapply le_marked; [exact X1|].
+    apply marked_mark. auto.
+  Qed.
+
+  Definition trace_cpost (rec : list bytes -> bytes -> nat -> mstate -> res (mstate * bool)) : Prop :=
+    forall fa F si st r, rec fa F si st = Ok r -> trace_complete (fst r) fa (F, si).
+
+  Definition le2' (a b : mstate * bool) : Prop := le (fst a) (fst b).
+
+  (* the loop of traceExtendMethod over the own functions *)
+  Definition step3 fuel F si (jf : nat * function) (father pat : bytes) (acc : mstate * bool) : res (mstate * bool) :=
+    if matches pat (qualified father (fn_name (snd jf)))
+    then bind (mark_function p fuel F si (fst jf) (snd jf) (mark (NService F si) (fst acc)))
+              (fun st' => Ok (st', true))
+    else Ok acc.
+
+  Lemma le2'_refl a : le2' a a. Proof. apply le_refl. Qed.
+  Lemma le2'_trans a b d : le2' a b -> le2' b d -> le2' a d. Proof. apply le_trans. Qed.
+
+  Lemma loop3 fuel F si jf father pats a b :
+    fold_res (step3 fuel F si jf father) pats a = Ok b ->
+    le2' a b /\ forall pat, In pat pats -> matches pat (qualified father (fn_name (snd jf))) = true ->
+                                          both_marked (fst b) (F, si) (fst jf).
+  Proof.
+    apply (fold_res_all (step3 fuel F si jf father) le2'
+             (fun pat acc => matches pat (qualified father (fn_name (snd jf))) = true ->
+                             both_marked (fst acc) (F, si) (fst jf)) pats le2'_refl le2'_trans).
+    - intros pat a2 b2 _ Hp. unfold step3 in Hp.
+      destruct (matches pat (qualified father (fn_name (snd jf)))) eqn:Em.
+      + apply bind_ok in Hp. destruct Hp as [s' [Hm Hr]]. injection Hr as <-. unfold le2'. cbn [fst].
+        apply mark_function_marks in Hm. destruct Hm as [Lm Mm].
+        split; [eapply le_trans; [apply le_mark | exact Lm]|]. intros _.
+        split; [eapply le_marked; [exact Lm|]; apply marked_mark; auto | exact Mm].
+      + injection Hp as <-. split; [apply le_refl | discriminate].
+    - intros pat a2 b2 L Hb Hm. eapply both_marked_le; [exact L | exact (Hb Hm)].
+  Qed.
+
+  Lemma loop2 fuel F si jf fa a b :
+    fold_res (fun father => fold_res (step3 fuel F si jf father) (patterns c p)) fa a = Ok b ->
+    le2' a b /\ forall father, In father fa -> forall pat, In pat (patterns c p) ->
+        matches pat (qualified father (fn_name (snd jf))) = true -> both_marked (fst b) (F, si) (fst jf).
+  Proof.
+    apply (fold_res_all (fun father => fold_res (step3 fuel F si jf father) (patterns c p)) le2'
+             (fun father acc => forall pat, In pat (patterns c p) ->
+                 matches pat (qualified father (fn_name (snd jf))) = true -> both_marked (fst acc) (F, si) (fst jf))
+             fa le2'_refl le2'_trans).
+    - intros father a2 b2 _ Hf. apply loop3 in Hf. exact Hf.
+    - intros father a2 b2 L Hb pat Hp Hm. eapply both_marked_le; [exact L | exact (Hb pat Hp Hm)].
+  Qed.
+
+  Lemma trace_own_loop fuel fa F si s st st1 ret1 :
+    fold_res (fun jf : nat * function =>
+       fold_res (fun father : bytes => fold_res (step3 fuel F si jf father) (patterns c p)) fa)
+       (indexed (sv_functions s)) (st, false) = Ok (st1, ret1) ->
+    forall j g father pat, nth_error (sv_functions s) j = Some g -> In father fa -> In pat (patterns c p) ->
+      matches pat (qualified father (fn_name g)) = true -> both_marked st1 (F, si) j.
+  Proof.
+    intros H.
+    apply (fold_res_all _ le2'
+             (fun jf acc => forall father, In father fa -> forall pat, In pat (patterns c p) ->
+                 matches pat (qualified father (fn_name (snd jf))) = true -> both_marked (fst acc) (F, si) (fst jf))
+             (indexed (sv_functions s)) le2'_refl le2'_trans) in H.
+    - destruct H as [_ H]. intros j g father pat Hj Hf Hp Hm.
+      assert (In (j, g) (indexed (sv_functions s))) as Hin by (apply indexed_In; exact Hj).
+      exact (H (j, g) Hin father Hf pat Hp Hm).
+    - intros jf a2 b2 _ Hj. apply loop2 in Hj. exact Hj.
+    - intros jf a2 b2 L Hb father Hf pat Hp Hm. eapply both_marked_le; [exact L | exact (Hb father Hf pat Hp Hm)].
+  Qed.
+
+  Lemma trace_body_cpost rec fuel :
+    (forall fa F si st r, rec fa F si st = Ok r -> le st (fst r)) ->
+    trace_cpost rec -> trace_cpost (trace_body matches c p rec fuel).
+  Proof.
+    intros Hmono Hrec fa F si st r. unfold trace_body.
+    destruct (prog_file p F) as [f|] eqn:Hf; [|discriminate].
+    destruct (nth_error (f_services f) si) as [s|] eqn:Hs; [|discriminate].
+    intros H. apply bind_ok in H. destruct H as [[st1 ret1] [H1 H]].
+    pose proof (trace_own_loop _ _ _ _ _ _ _ _ H1) as Own.
+    apply bind_ok in H. destruct H as [[st3 ret] [H3 H]].
+    assert (service_at p F si s) as Hsa by (exists f; auto).
+    assert (le st3 (fst r)) as L3r.
+    { destruct ret.
+      - apply bind_ok in H. destruct H as [st4 [H4 H]]. injection H as <-. cbn [fst].
+        apply mark_service_include_le in H4. eapply le_trans; [apply le_mark | exact H4].
+      - injection H as <-. apply le_refl. }
+    eapply trace_complete_le; [exact L3r|]. clear H L3r.
+    intros T j ts g father pat Hd [Hts Hj] Hfa Hp Hm.
+    destruct (is_nil (sv_extends s)) eqn:Enil.
+    - injection H3 as <- <-.
+      destruct (derives_inv _ _ _ _ Hd Hsa) as [->|[b1 [b2 [via [Hb _]]]]].
+      + cbn [fst snd] in Hts. rewrite (service_at_fun _ _ _ _ Hts Hsa) in Hj. eapply Own; eauto.
+      + unfold base_of in Hb. destruct (sv_extends s); [discriminate | discriminate].
+    - apply bind_ok in H3. destruct H3 as [nb [Hb H3]].
+      destruct nb as [[[bn bi] b]|]; [|discriminate].
+      apply bind_ok in H3. destruct H3 as [[st2 back] [H2 H3]]. injection H3 as <- <-.
+      assert (sv_extends s <> []) as Hne by (apply is_nil_false; exact Enil).
+      destruct (base_service_spec _ _ _ _ _ _ _ Hf Hne Hb) as [via [Hbo _]].
+      pose proof (Hmono _ _ _ _ _ H2) as L2. cbn [fst] in L2.
+      apply Hrec in H2. cbn [fst] in H2.
+      assert (le st2 (if back then st2 else add_ext F si st2)) as Le by (destruct back; [apply le_refl | apply le_add_ext]).
+      eapply both_marked_le; [exact Le|].
+      destruct (derives_inv _ _ _ _ Hd Hsa) as [->|[b1 [b2 [via' [Hb' Hd']]]]].
+      + cbn [fst snd] in Hts. rewrite (service_at_fun _ _ _ _ Hts Hsa) in Hj.
+        eapply both_marked_le; [exact L2|]. eapply Own; eauto.
+      + rewrite Hbo in Hb'. injection Hb' as <- <- _.
+        eapply H2; [exact Hd' | split; eauto | apply in_or_app; left; exact Hfa | exact Hp | exact Hm].
+  Qed.
+
+  Lemma trace_cpost_all fuel : trace_cpost (trace matches c p fuel).
+  Proof.
+    induction fuel as [|n IH]; cbn.
+    - intros fa F si st r H. discriminate.
+    - apply trace_body_cpost; [apply trace_le | exact IH].
+  Qed.
+End FilterIf.
+
+
+(* ==================================================================== the method filter, "if" half: complete services *)
+
+Section FilterIf2.
+  Variable matches : bytes -> bytes -> bool.
+  Variable cp : bytes -> bool.
+  Variable c : cfg.
+  Variable p : program.
+  Hypothesis Hfilter : filtering c = true.
+  Hypothesis Hgo : c_go_name c = false.
+
+  Notation both_marked := (both_marked).
+  Notation trace_complete := (trace_complete matches c p).
+
+  Definition has_ext (s : service) : bool := negb (is_nil (sv_extends s)) || negb (is_none (sv_ref s)).
+
+  (* what markService's own loop guarantees *)
+  Definition own_selects (st : mstate) (F : bytes) (si : nat) (s : service) : Prop :=
+    forall j g pat, nth_error (sv_functions s) j = Some g -> In pat (patterns c p) ->
+      selects matches pat (service_func_name c s g) = true -> both_marked st (F, si) j.
+
+  Definition complete (st : mstate) (F : bytes) (si : nat) (s : service) : Prop :=
+    own_selects st F si s /\ (has_ext s = true -> trace_complete st [sv_name s] (F, si)).
+
+  Lemma complete_le a b F si s : le a b -> complete a F si s -> complete b F si s.
+  Proof.
+    intros L [H1 H2]. split.
+    - intros j g pat Hj Hp Hs. eapply both_marked_le; [exact L | eapply H1; eauto].
+    - intros He. eapply trace_complete_le; [exact L | auto].
+  Qed.
+
+  Lemma func_name_raw s g : service_func_name c s g = qualified (sv_name s) (fn_name g).
+  Proof. unfold service_func_name. rewrite Hgo. reflexivity. Qed.
+
+  Lemma selects_matches' pat name : selects matches pat name = true -> matches pat name = true.
+  Proof. unfold selects. intros H. apply andb_true_iff in H. tauto. Qed.
+
+  (* a service whose functions were all tried under its own name is complete *)
+  Lemma complete_of_trace st fa F si s :
+    service_at p F si s -> In (sv_name s) fa -> trace_complete st fa (F, si) -> complete st F si s.
+  Proof.
+    intros Hs Hin Ht. split.
+    - intros j g pat Hj Hp Hsel. rewrite func_name_raw in Hsel. apply selects_matches' in Hsel.
+      eapply (Ht (F, si) j s g (sv_name s) pat); [apply d_refl | split; [exact Hs | exact Hj] | exact Hin | exact Hp | exact Hsel].
+    - intros _ T j ts g father pat Hd Hf [<-|[]] Hp Hm. eapply Ht; eauto.
+  Qed.
+
+  (* only (F, si) is marked as a service by a step *)
+  Definition only_svc (F : bytes) (si : nat) (a b : mstate) : Prop :=
+    forall G gi, marked b (NService G gi) = true -> marked a (NService G gi) = true \/ (G = F /\ gi = si).
+  Lemma only_svc_refl F si a : only_svc F si a a. Proof. intros G gi H. auto. Qed.
+  Lemma only_svc_trans F si a b d : only_svc F si a b -> only_svc F si b d -> only_svc F si a d.
+  Proof. intros H1 H2 G gi H. apply H2 in H. destruct H as [H|H]; auto. Qed.
+  Lemma only_svc_same F si a b : same_services a b -> only_svc F si a b.
+  Proof. intros H G gi Hm. left. apply H. exact Hm. Qed.
+  Lemma only_svc_mark F si a : only_svc F si a (mark (NService F si) a).
+  Proof. intros G gi H. apply marked_mark in H. destruct H as [[= -> ->]|H]; auto. Qed.
+
+  Lemma trace_loop_only fuel fa F si fns a b :
+    fold_res (fun jf : nat * function =>
+       fold_res (fun father : bytes => fold_res (step3 matches p fuel F si jf father) (patterns c p)) fa) fns a = Ok b ->
+    only_svc F si (fst a) (fst b).
+  Proof.
+    apply fold_res_rel with (R := fun a b => only_svc F si (fst a) (fst b));
+      [intros; apply only_svc_refl | intros ? ? ?; apply only_svc_trans|].
+    intros jf a1 b1 _. apply fold_res_rel with (R := fun a b => only_svc F si (fst a) (fst b));
+      [intros; apply only_svc_refl | intros ? ? ?; apply only_svc_trans|].
+    intros father a2 b2 _. apply fold_res_rel with (R := fun a b => only_svc F si (fst a) (fst b));
+      [intros; apply only_svc_refl | intros ? ? ?; apply only_svc_trans|].
+    intros pat a3 b3 _. unfold step3. destruct (matches _ _); [|intros [= <-]; apply only_svc_refl].
+    intros H. apply bind_ok in H. destruct H as [s' [Hm Hr]]. injection Hr as <-. cbn [fst].
+    apply mark_function_services in Hm.
+    eapply only_svc_trans; [apply only_svc_mark | apply only_svc_same; exact Hm].
+  Qed.
+
+  Lemma mark_service_include_services F f s a b : mark_service_include p F f s a = Ok b -> same_services a b.
+  Proof.
+    unfold mark_service_include. destruct (sv_ref s) as [r|]; [|intros [= <-]; apply same_services_refl].
+    destruct (include_file p f (ref_index r)) as [[i tn]|]; [|discriminate].
+    intros [= <-]. apply same_services_mark. intros ? ?; discriminate.
+  Qed.
+
+  Lemma base_service_at F f s bn bi b :
+    prog_file p F = Some f -> base_service p F f s = Ok (Some (bn, bi, b)) -> service_at p bn bi b.
+  Proof.
+    intros Hf. unfold base_service. destruct (sv_ref s) as [rf|].
+    - destruct (include_file p f (ref_index rf)) as [[ii tn]|]; [|discriminate].
+      destruct (prog_file p tn) as [tf|] eqn:Htf; [|discriminate].
+      destruct (find_index _ _) as [[jj x]|] eqn:Efi; [|discriminate]. intros [= <- <- <-].
+      apply find_index_some in Efi. exists tf. tauto.
+    - destruct (find_index _ _) as [[jj x]|] eqn:Efi; [|discriminate]. intros [= <- <- <-].
+      apply find_index_some in Efi. exists f. tauto.
+  Qed.
+
+  (* ---------------- traceExtendMethod: the services it newly marks are complete *)
+  Definition trace_npost (rec : list bytes -> bytes -> nat -> mstate -> res (mstate * bool)) : Prop :=
+    forall fa F si s st r, rec fa F si st = Ok r -> service_at p F si s -> In (sv_name s) fa ->
+      forall G gi gs, service_at p G gi gs -> marked (fst r) (NService G gi) = true ->
+        marked st (NService G gi) = false -> complete (fst r) G gi gs.
+
+  Lemma trace_body_npost rec fuel :
+    (forall fa F si st r, rec fa F si st = Ok r -> le st (fst r)) ->
+    trace_cpost matches c p rec -> trace_npost rec -> trace_npost (trace_body matches c p rec fuel).
+  Proof.
+    intros Hmono Hc Hrec fa F si s st r H Hsa Hin G gi gs Hg Hm H0.
+    pose proof (trace_body_cpost matches c p rec fuel Hmono Hc _ _ _ _ _ H) as Hcomp.
+    assert ((G = F /\ gi = si) \/ ~ (G = F /\ gi = si)) as [[EG Egi]|Hne].
+    { destruct (Nat.eq_dec gi si); [destruct (list_eq_dec Byte.byte_eq_dec G F)|]; tauto. }
+    { subst G gi. rewrite (service_at_fun _ _ _ _ _ Hg Hsa). eapply complete_of_trace; eauto. }
+    unfold trace_body in H;
+      destruct (prog_file p F) as [f|] eqn:Hf; [|discriminate];
+      destruct (nth_error (f_services f) si) as [s'|] eqn:Hs; [|discriminate];
+      apply bind_ok in H; destruct H as [[st1 ret1] [H1 H]];
+      apply trace_loop_only in H1; cbn [fst] in H1;
+      apply bind_ok in H; destruct H as [[st3 ret] [H3 H]].
+    assert (le st3 (fst r) /\ only_svc F si st3 (fst r)) as [L3 O3] by
+      (destruct ret;
+       [apply bind_ok in H; destruct H as [st4 [H4 H]]; injection H as <-; cbn [fst];
+        split; [apply mark_service_include_le in H4; eapply le_trans; [apply le_mark | exact H4]
+               | eapply only_svc_trans; [apply only_svc_mark | apply only_svc_same; eapply mark_service_include_services; exact H4]]
+       | injection H as <-; split; [apply le_refl | apply only_svc_refl]]).
+    assert (marked st3 (NService G gi) = true) as M3 by
+      (destruct (O3 _ _ Hm) as [M|[E1 E2]]; [exact M | exfalso; apply Hne; split; assumption]).
+    assert (marked st1 (NService G gi) = false) as M1 by
+      (destruct (marked st1 (NService G gi)) eqn:E; [|reflexivity];
+       destruct (H1 _ _ E) as [M|[E1 E2]]; [congruence | exfalso; apply Hne; split; assumption]).
+    destruct (is_nil (sv_extends s')) eqn:Enil; [injection H3 as <- <-; congruence|].
+    apply bind_ok in H3; destruct H3 as [nb [Hb H3]];
+      destruct nb as [[[bn bi] b]|]; [|discriminate];
+      apply bind_ok in H3; destruct H3 as [[st2 back] [H2 H3]]; injection H3 as <- <-.
+    assert (marked st2 (NService G gi) = true) as M2 by (destruct back; exact M3).
+    eapply complete_le; [eapply le_trans; [|exact L3]; destruct back; [apply le_refl | apply le_add_ext]|].
+    eapply (Hrec _ _ _ b _ _ H2); [eapply base_service_at; eauto | apply in_or_app; right; left; reflexivity
+                                         | exact Hg | exact M2 | exact M1].
+  Qed.
+
+  Lemma trace_npost_all fuel : trace_npost (trace matches c p fuel).
+  Proof.
+    induction fuel as [|n IH]; cbn.
+    - intros fa F si s st r H. discriminate.
+    - apply trace_body_npost; [apply trace_le | apply trace_cpost_all | exact IH].
+  Qed.
+End FilterIf2.
+
+
+(* ==================================================================== the method filter, "if" half: markService, the theorems *)
+
+Section FilterIf3.
+  Variable matches : bytes -> bytes -> bool.
+  Variable compiles : bytes -> bool.
+  Variable cp : bytes -> bool.
+  Variable c : cfg.
+  Variable p : program.
+  Hypothesis Hfilter : filtering c = true.
+  Hypothesis Hgo : c_go_name c = false.
+
+  Notation complete := (complete matches c p).
+
+  Definition svc_cpost (rec : bytes -> nat -> mstate -> res mstate) : Prop :=
+    forall F si s st st', rec F si st = Ok st' -> service_at p F si s ->
+      (marked st (NService F si) = false -> complete st' F si s) /\
+      (forall G gi gs, service_at p G gi gs -> marked st' (NService G gi) = true ->
+         marked st (NService G gi) = false -> complete st' G gi gs).
+
+  (* the loop of markService over the own functions *)
+  Definition sstep fuel F si (s : service) (jf : nat * function) (pat : bytes) (st : mstate) : res mstate :=
+    if selects matches pat (service_func_name c s (snd jf))
+    then mark_function p fuel F si (fst jf) (snd jf) (mark (NService F si) st)
+    else Ok st.
+
+  Lemma sloop fuel F si s a b :
+    fold_res (fun jf st0 => fold_res (sstep fuel F si s jf) (patterns c p) st0) (indexed (sv_functions s)) a = Ok b ->
+    le a b /\ only_svc F si a b /\ own_selects matches c p b F si s.
+  Proof.
+    intros H. split; [|split].
+    - revert H. apply fold_res_rel; [apply le_refl | apply le_trans|].
+      intros jf a1 b1 _. apply fold_res_rel; [apply le_refl | apply le_trans|].
+      intros pat a2 b2 _. unfold sstep. destruct (selects _ _ _); [|intros [= <-]; apply le_refl].
+      intros Hm. apply mark_function_le in Hm. eapply le_trans; [apply le_mark | exact Hm].
+    - revert H. apply fold_res_rel; [apply only_svc_refl | apply only_svc_trans|].
+      intros jf a1 b1 _. apply fold_res_rel; [apply only_svc_refl | apply only_svc_trans|].
+      intros pat a2 b2 _. unfold sstep. destruct (selects _ _ _); [|intros [= <-]; apply only_svc_refl].
+      intros Hm. apply mark_function_services in Hm.
+      eapply only_svc_trans; [apply only_svc_mark | apply only_svc_same; exact Hm].
+    - apply (fold_res_all _ le
+               (fun jf st => forall pat, In pat (patterns c p) ->
+                  selects matches pat (service_func_name c s (snd jf)) = true -> both_marked st (F, si) (fst jf))
+               (indexed (sv_functions s)) le_refl le_trans) in H.
+      + destruct H as [_ H]. intros j g pat Hj Hp Hs.
+        assert (In (j, g) (indexed (sv_functions s))) as Hin by (apply indexed_In; exact Hj).
+        exact (H (j, g) Hin pat Hp Hs).
+      + intros jf a1 b1 _ Hj.
+        apply (fold_res_all (sstep fuel F si s jf) le
+                 (fun pat st => selects matches pat (service_func_name c s (snd jf)) = true -> both_marked st (F, si) (fst jf))
+                 (patterns c p) le_refl le_trans) in Hj.
+        * exact Hj.
+        * intros pat a2 b2 _ Hp. unfold sstep in Hp.
+          destruct (selects matches pat (service_func_name c s (snd jf))) eqn:Es.
+          -- apply mark_function_marks in Hp. destruct Hp as [Lm Mm].
+             split; [eapply le_trans; [apply le_mark | exact Lm]|]. intros _.
+             split; [eapply le_marked; [exact Lm|]; apply marked_mark; auto | exact Mm].
+          -- injection Hp as <-. split; [apply le_refl | discriminate].
+        * intros pat a2 b2 L Hb Hs. eapply both_marked_le; [exact L | exact (Hb Hs)].
+      + intros jf a1 b1 L Hb pat Hp Hs. eapply both_marked_le; [exact L | exact (Hb pat Hp Hs)].
+  Qed.
+
+  Lemma mark_service_body_cpost rec fuel :
+    (forall F si st st', rec F si st = Ok st' -> le st st') ->
+    svc_cpost rec -> svc_cpost (mark_service_body matches c p rec fuel).
+  Proof.
+    intros Hmono Hrec F si s st st' H Hsa.
+    destruct Hsa as [f [Hf Hs]]. unfold mark_service_body in H. rewrite Hf, Hs in H.
+    destruct (marked st (NService F si)) eqn:Em.
+    { injection H as <-. split; [discriminate|]. intros G gi gs _ H1 H0. congruence. }
+    rewrite Hfilter in H. cbv beta iota in H.
+    apply bind_ok in H. destruct H as [st1 [H1 H]].
+    apply sloop in H1. destruct H1 as [L1 [O1 Own1]].
+    apply bind_ok in H. destruct H as [st2 [H2 H]].
+    assert (service_at p F si s) as Hsa by (exists f; auto).
+    (* traceExtendMethod *)
+    assert (le st1 st2 /\ complete st2 F si s /\
+            (forall G gi gs, service_at p G gi gs -> marked st2 (NService G gi) = true ->
+               marked st1 (NService G gi) = false -> complete st2 G gi gs)) as [L2 [C2 N2]].
+    { change (negb (is_nil (sv_extends s)) || negb (is_none (sv_ref s))) with (has_ext s) in H2.
+      destruct (has_ext s) eqn:Ee; cbn [andb] in H2.
+      - apply bind_ok in H2. destruct H2 as [[s2 r2] [H2 H3]]. injection H3 as <-. cbn [fst].
+        pose proof (trace_le matches c p fuel _ _ _ _ _ H2) as L. cbn [fst] in L.
+        split; [exact L|]. split.
+        + split; [intros j g pat Hj Hp Hsel; eapply both_marked_le; [exact L | eapply Own1; eauto]|].
+          intros _. apply (trace_cpost_all matches c p _ _ _ _ _ _ H2).
+        + intros G gi gs Hg Hm H0.
+          exact (trace_npost_all matches cp c p Hgo fuel _ _ _ s _ _ H2 Hsa (or_introl eq_refl) G gi gs Hg Hm H0).
+      - injection H2 as <-. split; [apply le_refl|]. split; [split; [exact Own1 | intros E; rewrite Ee in E; discriminate E]|].
+        intros G gi gs _ Hm H0. congruence. }
+    (* the rest only marks through the recursive call *)
+    assert (forall st3 nb, le st2 st3 -> same_services st2 st3 ->
+              base_service p F f s = Ok nb ->
+              match nb with Some (bn, bi, _) => rec bn bi st3 | None => Ok st3 end = Ok st' ->
+              le st2 st' /\
+              (forall G gi gs, service_at p G gi gs -> marked st' (NService G gi) = true ->
+                 marked st2 (NService G gi) = false -> complete st' G gi gs)) as Hfin.
+    { intros st3 nb L3 S3 Hb Hr. destruct nb as [[[bn bi] b]|].
+      - pose proof (Hmono _ _ _ _ Hr) as L4.
+        destruct (Hrec _ _ b _ _ Hr (base_service_at matches cp p _ _ _ _ _ _ Hf Hb)) as [_ N4].
+        split; [eapply le_trans; eauto|].
+        intros G gi gs Hg Hm H0. apply N4; [exact Hg | exact Hm|].
+        destruct (marked st3 (NService G gi)) eqn:E; [|reflexivity]. apply S3 in E. congruence.
+      - injection Hr as <-. split; [exact L3|]. intros G gi gs _ Hm H0. apply S3 in Hm. congruence. }
+    assert (le st2 st' /\
+            (forall G gi gs, service_at p G gi gs -> marked st' (NService G gi) = true ->
+               marked st2 (NService G gi) = false -> complete st' G gi gs)) as [L3 N3].
+    { destruct (negb (is_nil (sv_extends s)) && marked st2 (NService F si)).
+      - destruct (sv_ref s) as [r|].
+        + apply bind_ok in H. destruct H as [st3 [H3 H]].
+          apply bind_ok in H. destruct H as [nb [Hb H]].
+          eapply Hfin; [eapply mark_service_include_le; exact H3 | eapply mark_service_include_services; exact H3
+                        | exact Hb | exact H].
+        + apply bind_ok in H. destruct H as [nb [Hb H]].
+          eapply Hfin; [apply le_refl | apply same_services_refl | exact Hb | exact H].
+      - injection H as <-. split; [apply le_refl|]. intros G gi gs _ Hm H0. congruence. }
+    split.
+    - intros _. eapply complete_le; [exact L3 | exact C2].
+    - intros G gi gs Hg Hm H0.
+      destruct (marked st2 (NService G gi)) eqn:E2; [|apply N3; assumption].
+      eapply complete_le; [exact L3|].
+      destruct (marked st1 (NService G gi)) eqn:E1; [|apply N2; assumption].
+      destruct (O1 _ _ E1) as [M|[-> ->]]; [congruence|].
+      rewrite (service_at_fun _ _ _ _ _ Hg Hsa). exact C2.
+  Qed.
+
+  Lemma mark_service_cpost fuel : svc_cpost (mark_service matches c p fuel).
+  Proof.
+    induction fuel as [|n IH]; cbn.
+    - intros F si s st st' H. discriminate.
+    - apply mark_service_body_cpost; [apply mark_service_le | exact IH].
+  Qed.
+
+  (* method_filter, the "if" half: after markAST every service of the main file is complete:
+     each of its methods selected by markService's rule is marked, and when it extends another
+     service every method of every service reached through `extends` that matches a pattern
+     under the main service's name is marked (with its service) *)
+  Theorem method_filter_complete fuel fin f i s :
+    mark_ast matches cp c p fuel = Ok fin -> prog_main p = Some f -> nth_error (f_services f) i = Some s ->
+    complete fin (main_name p) i s.
+  Proof.
+    intros H Hm Hi. unfold mark_ast in H. rewrite Hm in H.
+    apply bind_ok in H. destruct H as [[st1 r1] [H1 H]].
+    apply bind_ok in H. destruct H as [st2 [H2 H]].
+    apply bind_ok in H. destruct H as [[st3 r3] [H3 H]]. injection H as <-. cbn [fst].
+    assert (le st1 st2) as L12.
+    { revert H2. apply fold_res_rel; [apply le_refl | apply le_trans|]. intros is a b _. apply mark_service_le. }
+    destruct (pre_process_cached _ _ _ _ _ _ _ _ H1) as [v Hv].
+    assert (st3 = st2) as ->.
+    { unfold kept_part in H3. destruct L12 as [_ [_ L]]. rewrite (L _ _ Hv) in H3. congruence. }
+    assert (prog_file p (main_name p) = Some f) as Hf.
+    { unfold prog_main, main_name, prog_file in *. destruct p as [|[n g] r]; [discriminate|]. injection Hm as ->.
+      cbn. rewrite beqb_refl. reflexivity. }
+    assert (forall l, (forall is, In is l -> In is (indexed (f_services f))) ->
+              forall a b, fold_res (fun (is : nat * service) => mark_service matches c p fuel (main_name p) (fst is)) l a = Ok b ->
+              (forall G gi gs, service_at p G gi gs -> marked a (NService G gi) = true -> complete a G gi gs) ->
+              le a b /\
+              (forall G gi gs, service_at p G gi gs -> marked b (NService G gi) = true -> complete b G gi gs) /\
+              (forall j sj, In (j, sj) l -> complete b (main_name p) j sj)) as Hl.
+    { induction l as [|[j sj] l IH]; intros Hsub a b Hfo Ia; cbn [fold_res] in Hfo.
+      - injection Hfo as <-. split; [apply le_refl|]. split; [exact Ia | intros j sj []].
+      - apply bind_ok in Hfo. destruct Hfo as [a1 [Hx Hr]]. cbn [fst] in Hx.
+        pose proof (Hsub _ (or_introl eq_refl)) as Hj. apply indexed_In in Hj.
+        assert (service_at p (main_name p) j sj) as Hsj by (exists f; auto).
+        pose proof (mark_service_le matches c p fuel _ _ _ _ Hx) as La.
+        destruct (mark_service_cpost _ _ _ _ _ _ Hx Hsj) as [C1 N1].
+        assert (forall G gi gs, service_at p G gi gs -> marked a1 (NService G gi) = true -> complete a1 G gi gs) as I1.
+        { intros G gi gs Hg Hmk. destruct (marked a (NService G gi)) eqn:E.
+          - eapply complete_le; [exact La | apply Ia; assumption].
+          - apply N1; assumption. }
+        assert (complete a1 (main_name p) j sj) as Cj.
+        { destruct (marked a (NService (main_name p) j)) eqn:E; [|apply C1; reflexivity].
+          eapply complete_le; [exact La | apply Ia; assumption]. }
+        destruct (IH (fun is H => Hsub is (or_intror H)) _ _ Hr I1) as [Lb [Ib Cb]].
+        split; [eapply le_trans; eauto|]. split; [exact Ib|].
+        intros j' sj' [[= <- <-]|Hin]; [eapply complete_le; [exact Lb | exact Cj] | eapply Cb; eauto]. }
+    destruct (Hl _ (fun is H => H) _ _ H2) as [_ [_ C]].
+    - intros G gi gs _ Hmk. apply (pre_process_services _ _ _ _ _ _ _ H1) in Hmk. discriminate.
+    - apply C. apply indexed_In. exact Hi.
+  Qed.
+
+  (* ... and what is marked in this way is in the trimmed program *)
+  Theorem marked_function_in_output q fin T j ts g :
+    trim matches compiles cp c p = Trimmed q -> marks_of matches cp c p fin ->
+    both_marked fin T j -> fn_at p T j ts g ->
+    exists qf sv, In (fst T, qf) q /\ In sv (f_services qf) /\ sv_name sv = sv_name ts /\ In g (sv_functions sv).
+  Proof.
+    intros Ht Hm [Ms Mf] [[f [Hf Hs]] Hj].
+    destruct (trim_trimmed _ _ _ _ _ _ Ht) as [fin' [Hm' Hr]].
+    unfold marks_of in *. rewrite Hm in Hm'. injection Hm' as <-.
+    pose proof (marks_connected matches cp c p _ _ Hm (NService (fst T) (snd T)) eq_refl Ms) as Hp. cbn [node_file] in Hp.
+    destruct (file_in_output matches cp c p _ _ _ Hm Hr Hp) as [qf Hq].
+    destruct (output_entry _ _ _ _ _ _ _ Hr Hq) as [pf [HF Htf]]. rewrite Hf in HF. injection HF as <-.
+    exists qf, (trim_service c fin (fst T) (snd T, ts)). split; [exact Hq|].
+    unfold trim_file in Htf. apply bind_ok in Htf. destruct Htf as [incs [_ Htf]]. injection Htf as <-.
+    cbn [f_services]. split.
+    { apply in_map. apply filter_In. split; [apply indexed_In; exact Hs | exact Ms]. }
+    unfold trim_service. cbn [fst snd]. rewrite Hfilter.
+    assert (In g (map snd (filter (fun jf => marked fin (NFunction (fst T) (snd T) (fst jf))) (indexed (sv_functions ts))))) as Hg.
+    { apply in_map_iff. exists (j, g). split; [reflexivity|]. apply filter_In. split; [apply indexed_In; exact Hj | exact Mf]. }
+    destruct (in_ext fin (fst T) (snd T)); cbn [sv_name sv_functions]; auto.
+  Qed.
+End FilterIf3.
+
+
+(* ==================================================================== no reference of the output dangles *)
+
+(* ---------------------------------------------------------------- no reference of the output dangles *)
+
+Section Survive.
+  Variable matches : bytes -> bytes -> bool.
+  Variable compiles : bytes -> bool.
+  Variable cp : bytes -> bool.
+  Variable c : cfg.
+  Variable p : program.
+  Hypothesis Hwf : wf p.
+
+  (* node [m] of the input is still there in the output [q] *)
+  Definition node_survives (q : program) (m : node) : Prop :=
+    match m with
+    | NStructLike G k i => exists pg s gq, prog_file p G = Some pg /\ nth_error (sl_list k pg) i = Some s /\
+                                           In (G, gq) q /\ In s (sl_list k gq)
+    | NEnum G i => exists pg e gq, prog_file p G = Some pg /\ nth_error (f_enums pg) i = Some e /\
+                                   In (G, gq) q /\ In e (f_enums gq)
+    | NTypedef G i => exists pg d gq, prog_file p G = Some pg /\ nth_error (f_typedefs pg) i = Some d /\
+                                      In (G, gq) q /\ In d (f_typedefs gq)
+    | NInclude G i => exists pg inc0 gq, prog_file p G = Some pg /\ nth_error (f_includes pg) i = Some inc0 /\
+                                         In (G, gq) q /\ In (Include (in_path inc0) (in_ref inc0) None) (f_includes gq)
+    | NService G i => exists pg s gq sv, prog_file p G = Some pg /\ nth_error (f_services pg) i = Some s /\
+                                         In (G, gq) q /\ In sv (f_services gq) /\ sv_name sv = sv_name s
+    | NFunction _ _ _ => True
+    end.
+
+  Variable q : program.
+  Variable fin : mstate.
+  Hypothesis Hm : mark_ast matches cp c p (prog_size p) = Ok fin.
+  Hypothesis Hr : reach cp c p false (prog_size p) fin (main_name p) [] = Ok q.
+
+  Lemma entry F qf : In (F, qf) q -> exists pf, prog_file p F = Some pf /\ trim_file cp c p fin F pf = Ok qf.
+  Proof. apply output_entry. exact Hr. Qed.
+
+  (* a marked include of a file of the output is in that file, and its target is in the output *)
+  Lemma include_kept F qf pf j tn :
+    In (F, qf) q -> prog_file p F = Some pf -> include_file p pf (Z.of_nat j) = Some (j, tn) ->
+    marked fin (NInclude F j) = true ->
+    node_survives q (NInclude F j) /\ exists gq, In (tn, gq) q.
+  Proof.
+    intros Hq Hpf Hi Mk. destruct (entry _ _ Hq) as [pf' [Hpf' Htf]]. rewrite Hpf in Hpf'. injection Hpf' as <-.
+    destruct (include_file_inv _ _ _ _ _ Hi) as [_ [inc0 [Hn [Hr0 Ht0]]]].
+    unfold nth_include in Hn. destruct (Z.of_nat j <? 0)%Z; [discriminate|]. rewrite Nat2Z.id in Hn.
+    assert (In (Include (in_path inc0) (in_ref inc0) None) (f_includes qf)) as Hin.
+    { eapply trim_file_includes_conv; [exact Htf | exact Hn|].
+      unfold keep_include, include_target. cbn [fst snd]. rewrite Hr0.
+      destruct (prog_file p tn); [|congruence]. rewrite Mk. reflexivity. }
+    split; [exists pf, inc0, qf; auto|].
+    destruct (reach_closed _ _ _ _ _ _ _ _ _ Hr _ Hq) as [[]|Hc].
+    specialize (Hc _ tn Hin Hr0). apply in_map_iff in Hc. destruct Hc as [[tn' gq] [E Hc]]. cbn in E. subst. eauto.
+  Qed.
+
+  (* what one type node denotes survives when the nodes that need a mark are marked *)
+  Lemma denotes_survive F qf t :
+    In (F, qf) q ->
+    (forall m, In m (ty_denotes p F t) -> needs_mark m = true -> marked fin m = true) ->
+    forall m, In m (ty_denotes p F t) -> node_survives q m.
+  Proof.
+    intros Hq Hmk. destruct (entry _ _ Hq) as [pf [Hpf Htf]].
+    unfold ty_denotes in *. destruct (ty_target_file p F t) as [[bn via]|] eqn:Et; [|intros m []].
+    (* the file the type points into is in the output *)
+    assert ((forall m, In m via -> node_survives q m) /\ exists gq, In (bn, gq) q) as [Hvia [gq Hgq]].
+    { unfold ty_target_file in Et. destruct (ty_ref t) as [r|].
+      - rewrite Hpf in Et. destruct (include_file p pf (ref_index r)) as [[j tn]|] eqn:Ei; [|discriminate].
+        injection Et as <- <-.
+        destruct (include_kept _ _ _ _ _ Hq Hpf (include_file_of_nat _ _ _ _ _ Ei)) as [S1 S2].
+        { apply Hmk; [left; reflexivity | reflexivity]. }
+        split; [intros m [<-|[]]; exact S1 | exact S2].
+      - injection Et as <- <-. split; [intros m [] | eauto]. }
+    intros m Hin. apply in_app_iff in Hin. destruct Hin as [Hin|Hin]; [auto|].
+    destruct (entry _ _ Hgq) as [pg [Hpg Htg]]. rewrite Hpg in Hin, Hmk.
+    pose proof (trim_file_always_kept _ _ _ _ _ _ _ Htg) as [_ [Etd [Een _]]].
+    destruct (ty_is_typedef t).
+    - destruct (find_index _ _) as [[i d]|] eqn:Efi; [|destruct Hin]. destruct Hin as [<-|[]].
+      apply find_index_some in Efi. destruct Efi as [Hn _].
+      exists pg, d, gq. rewrite Etd. repeat split; auto. eapply nth_error_In; eauto.
+    - destruct (category_sl_kind (ty_category t)) as [k|].
+      + destruct (find_index _ _) as [[i s]|] eqn:Efi; [|destruct Hin]. destruct Hin as [<-|[]].
+        apply find_index_some in Efi. destruct Efi as [Hn _].
+        exists pg, s, gq. repeat split; auto.
+        eapply trim_file_struct_likes_conv; [exact Htg | exact Hn|].
+        unfold keep_sl. cbn [fst]. rewrite Hmk; [reflexivity | apply in_or_app; right; left; reflexivity | reflexivity].
+      + destruct (ty_category t); try destruct Hin.
+        destruct (find_index _ _) as [[i e]|] eqn:Efi; [|destruct Hin]. destruct Hin as [<-|[]].
+        apply find_index_some in Efi. destruct Efi as [Hn _].
+        exists pg, e, gq. rewrite Een. repeat split; auto. eapply nth_error_In; eauto.
+  Qed.
+
+  Lemma tys_nodes_survive F qf ts :
+    In (F, qf) q ->
+    (forall m, In m (tys_nodes p F ts) -> needs_mark m = true -> marked fin m = true) ->
+    forall m, In m (tys_nodes p F ts) -> node_survives q m.
+  Proof.
+    intros Hq Hmk m Hin. unfold tys_nodes in Hin. apply in_flat_map in Hin. destruct Hin as [t [Ht Hin]].
+    unfold ty_nodes in Hin. apply in_flat_map in Hin. destruct Hin as [t' [Ht' Hin]].
+    eapply denotes_survive; [exact Hq | | exact Hin].
+    intros m' Hm' Hn. apply Hmk; [|exact Hn].
+    unfold tys_nodes. apply in_flat_map. exists t. split; [exact Ht|].
+    unfold ty_nodes. apply in_flat_map. exists t'. auto.
+  Qed.
+
+  (* the facts about the final marks *)
+  Lemma fin_ok : final_ok cp c p fin.
+  Proof. destruct Hwf as [W1 W2 W3 W4]. eapply mark_ast_final; eauto. Qed.
+
+  Lemma fin_roots F pf : prog_file p F = Some pf -> roots_marked cp c p fin F.
+  Proof.
+    intros HF. destruct fin_ok as [[_ Hrd] Hca _ _]. destruct (Hca _ _ HF) as [v Hv]. eapply Hrd; eauto.
+  Qed.
+
+  (* every type reference of every definition left in the output denotes a definition (and
+     goes through an include) that is left in the output *)
+  Theorem references_survive F qf :
+    In (F, qf) q ->
+    (forall k s m, In s (sl_list k qf) -> In m (tys_nodes p F (map fd_type (sl_fields s))) -> node_survives q m) /\
+    (forall m, In m (tys_nodes p F (map td_type (f_typedefs qf))) -> node_survives q m) /\
+    (forall m, In m (tys_nodes p F (map co_type (f_constants qf))) -> node_survives q m) /\
+    (forall sv fn m, In sv (f_services qf) -> In fn (sv_functions sv) ->
+                     In m (tys_nodes p F (function_types fn)) -> node_survives q m).
+  Proof.
+    intros Hq. destruct (entry _ _ Hq) as [pf [Hpf Htf]].
+    destruct fin_ok as [[Hcl _] _ Hsv _].
+    destruct (fin_roots _ _ Hpf pf Hpf) as [R1 [R2 R3]].
+    pose proof (trim_file_always_kept _ _ _ _ _ _ _ Htf) as [Eco [Etd _]].
+    split; [|split; [|split]].
+    - intros k s m Hs Hin. destruct (trim_file_struct_likes _ _ _ _ _ _ _ _ _ Htf Hs) as [i [Hi Hk]].
+      assert (marked fin (NStructLike F k i) = true) as Mk.
+      { unfold keep_sl in Hk. cbn [fst snd] in Hk. apply orb_true_iff in Hk. destruct Hk as [Hk|Hk]; [exact Hk|].
+        rewrite check_preserve_preserved in Hk. eapply R3; eauto. }
+      eapply tys_nodes_survive; [exact Hq | | exact Hin].
+      intros m' Hm' Hn. specialize (Hcl _ Mk). cbn in Hcl. eapply Hcl; eauto.
+    - rewrite Etd. intros m Hin. eapply tys_nodes_survive; [exact Hq | exact R2 | exact Hin].
+    - rewrite Eco. intros m Hin. eapply tys_nodes_survive; [exact Hq | exact R1 | exact Hin].
+    - intros sv fn m Hsvin Hfn Hin.
+      unfold trim_file in Htf. apply bind_ok in Htf. destruct Htf as [incs [_ Htf]]. injection Htf as <-.
+      cbn [f_services] in Hsvin. apply in_map_iff in Hsvin. destruct Hsvin as [[i s0] [<- Hsvin]].
+      apply filter_In in Hsvin. destruct Hsvin as [Hi Mks]. apply indexed_In in Hi. cbn [fst] in Mks.
+      assert (exists j, nth_error (sv_functions s0) j = Some fn /\ marked fin (NFunction F i j) = true) as [j [Hj Mf]].
+      { unfold trim_service in Hfn. cbn [fst snd] in Hfn.
+        assert (In fn (if filtering c
+                       then map snd (filter (fun jf => marked fin (NFunction F i (fst jf))) (indexed (sv_functions s0)))
+                       else sv_functions s0)) as Hfn' by (destruct (in_ext fin F i); exact Hfn).
+        destruct (filtering c) eqn:Ef.
+        - apply in_map_iff in Hfn'. destruct Hfn' as [[j fn'] [E Hj]]. cbn in E. subst fn'.
+          apply filter_In in Hj. destruct Hj as [Hj Mf]. apply indexed_In in Hj. eauto.
+        - apply In_nth_error in Hfn'. destruct Hfn' as [j Hj]. exists j. split; [exact Hj|].
+          destruct (Hsv Ef _ _ Mks _ _ Hpf Hi) as [Hall _]. eapply Hall; eauto. }
+      eapply tys_nodes_survive; [exact Hq | | exact Hin].
+      intros m' Hm' Hn. specialize (Hcl _ Mf). cbn in Hcl. eapply Hcl; eauto.
+  Qed.
+
+  (* without a filter the base service of a kept service, and the include it is written
+     through, are left in the output *)
+  Theorem base_service_survives F qf i s0 b via :
+    filtering c = false -> In (F, qf) q ->
+    service_at p F i s0 -> marked fin (NService F i) = true -> base_of p F s0 = Some (b, via) ->
+    node_survives q b /\ forall m, In m via -> node_survives q m.
+  Proof.
+    intros Hnf Hq [pf [Hpf Hi]] Mk Hb. destruct fin_ok as [_ _ Hsv _].
+    destruct (Hsv Hnf _ _ Mk _ _ Hpf Hi) as [_ Hbase]. destruct (Hbase _ _ Hb) as [Mb Mv].
+    unfold base_of in Hb. destruct (sv_extends s0); [discriminate|]. rewrite Hpf in Hb.
+    assert (forall G gi gq x, In (G, gq) q -> service_at p G gi x -> marked fin (NService G gi) = true ->
+              node_survives q (NService G gi)) as Hsvc.
+    { intros G gi gq x Hgq [pg [Hpg Hx]] Mg. destruct (entry _ _ Hgq) as [pg' [Hpg' Htg]].
+      rewrite Hpg in Hpg'. injection Hpg' as <-.
+      exists pg, x, gq, (trim_service c fin G (gi, x)). repeat split; auto.
+      - unfold trim_file in Htg. apply bind_ok in Htg. destruct Htg as [incs [_ Htg]]. injection Htg as <-.
+        cbn [f_services]. apply in_map. apply filter_In. split; [apply indexed_In; exact Hx | exact Mg].
+      - unfold trim_service. cbn [fst snd]. destruct (in_ext fin G gi); reflexivity. }
+    destruct (sv_ref s0) as [r|].
+    - destruct (include_file p pf (ref_index r)) as [[j tn]|] eqn:Ei; [|discriminate].
+      destruct (prog_file p tn) as [tf|] eqn:Htf; [|discriminate].
+      destruct (find_index _ _) as [[gi x]|] eqn:Efi; [|discriminate]. injection Hb as <- <-.
+      apply find_index_some in Efi. destruct Efi as [Hx _].
+      destruct (include_kept _ _ _ _ _ Hq Hpf (include_file_of_nat _ _ _ _ _ Ei)) as [S1 [gq Hgq]].
+      { apply Mv. left. reflexivity. }
+      split; [|intros m [<-|[]]; exact S1].
+      eapply Hsvc; [exact Hgq | exists tf; eauto | exact Mb].
+    - destruct (find_index _ _) as [[gi x]|] eqn:Efi; [|discriminate]. injection Hb as <- <-.
+      apply find_index_some in Efi. destruct Efi as [Hx _].
+      split; [|intros m []]. eapply Hsvc; [exact Hq | exists pf; eauto | exact Mb].
+  Qed.
+End Survive.
+
+(* ==================================================================== towards idempotence *)
+(* ---------------------------------------------------------------- towards idempotence: a file in which
+   everything is kept is a fixed point of traversal *)
+
+Lemma map_snd_indexed {A} (l : list A) : map snd (indexed l) = l.
+Proof.
+  unfold indexed. generalize 0. induction l as [|x l IH]; intros n; cbn; [reflexivity|]. f_equal. apply IH.
+Qed.
+
+Lemma filter_all {A} (f : A -> bool) l : (forall x, In x l -> f x = true) -> filter f l = l.
+Proof.
+  induction l as [|x l IH]; intros H; cbn; [reflexivity|].
+  rewrite (H x (or_introl eq_refl)). f_equal. apply IH. intros y Hy. apply H. right. exact Hy.
+Qed.
+
+Lemma filter_res_all {A} (f : A -> res bool) l : (forall x, In x l -> f x = Ok true) -> filter_res f l = Ok l.
+Proof.
+  induction l as [|x l IH]; intros H; cbn; [reflexivity|].
+  rewrite (H x (or_introl eq_refl)). cbn. rewrite IH; [reflexivity|]. intros y Hy. apply H. right. exact Hy.
+Qed.
+
+Section FixedPoint.
+  Variable cp : bytes -> bool.
+  Variable c : cfg.
+  Variable p : program.
+
+  (* traversal's only effect on such a file: Include.Used and Name2Category are reset *)
+  Definition reset_file (f : file) : file :=
+    File (f_filename f) (map (fun inc => Include (in_path inc) (in_ref inc) None) (f_includes f))
+         (f_cpp_includes f) (f_namespaces f) (f_typedefs f) (f_constants f) (f_enums f)
+         (f_structs f) (f_unions f) (f_exceptions f) (f_services f) None.
+
+  Definition everything_kept (st : mstate) (F : bytes) (f : file) : Prop :=
+    (forall ii, In ii (indexed (f_includes f)) -> keep_include p st F ii = Ok true) /\
+    (forall k is, In is (indexed (sl_list k f)) -> keep_sl cp c st F k is = true) /\
+    (forall i s, In (i, s) (indexed (f_services f)) ->
+       marked st (NService F i) = true /\ in_ext st F i = false /\
+       forall jf, In jf (indexed (sv_functions s)) -> marked st (NFunction F i (fst jf)) = true).
+
+  Theorem trim_file_fixpoint st F f : everything_kept st F f -> trim_file cp c p st F f = Ok (reset_file f).
+  Proof.
+    intros [Hi [Hs Hv]]. unfold trim_file, reset_file.
+    rewrite (filter_res_all _ _ Hi). cbn [bind].
+    pose proof (Hs SKStruct) as H1. pose proof (Hs SKUnion) as H2. pose proof (Hs SKException) as H3.
+    cbn [sl_list] in H1, H2, H3.
+    rewrite (filter_all _ _ H1), (filter_all _ _ H2), (filter_all _ _ H3). rewrite !map_snd_indexed.
+    rewrite filter_all by (intros [i s] Hin; apply (Hv i s Hin)).
+    do 2 f_equal.
+    - rewrite <- (map_snd_indexed (f_includes f)) at 2. rewrite map_map. reflexivity.
+    - rewrite <- (map_snd_indexed (f_services f)) at 2. apply map_ext_in.
+      intros [i s] Hin. destruct (Hv i s Hin) as [_ [He Hf]]. unfold trim_service. cbn [fst snd]. rewrite He.
+      assert ((if filtering c
+               then map snd (filter (fun jf => marked st (NFunction F i (fst jf))) (indexed (sv_functions s)))
+               else sv_functions s) = sv_functions s) as ->.
+      { destruct (filtering c); [|reflexivity]. rewrite (filter_all _ _ Hf). apply map_snd_indexed. }
+      destruct s; reflexivity.
+  Qed.
+End FixedPoint.
